@@ -1,7 +1,8 @@
 (* Props/C20.v — the audited surface for property C20 ("the dependency graph tool reports exactly the dependencies the
    equations have").  Statements only; every proof is `exact <lemma>`.
 
-   Model: Graph.symbols_to_graph_M is fsic.tools.symbols_to_graph as coded (split at the first "=", re-tokenise both
+   Model: Graph.symbols_to_graph_M is fsic.tools.symbols_to_graph as coded (equations of ENDOGENOUS symbols only — fix
+   9d4c57e —, split at the first "=", re-tokenise both
    sides with the model of term_re.finditer (Parser/Lex.v), group(0) as node id, lhs x rhs edges, `equation` attribute).
    A normalised equation is given as a token list (GNorm.neq: variable terms NAME[t+k] / NAME[period], function names,
    keywords, verbatim fragments, single other characters); neq_wf is the boolean well-formedness that makes every token
@@ -23,6 +24,29 @@ Theorem C20_graph_total : forall (symbols : list symbol) (qs : list neq),
   symbols_to_graph_M symbols = Ret (graph_of qs).
 Proof. exact graph_total. Qed.
 Print Assumptions C20_graph_total.
+
+(* fix 9d4c57e: only ENDOGENOUS symbols contribute.  A symbol of any other type — a verbatim block (its code sits in the
+   `equation` field, with or without "="), a parameter, a function … — adds no node, no edge and no failure *)
+Theorem C20_non_endogenous_ignored : forall (a : list symbol) (s : symbol) (b : list symbol),
+  stype s <> TEndogenous -> symbols_to_graph_M (a ++ s :: b)%list = symbols_to_graph_M (a ++ b)%list.
+Proof. exact non_endogenous_ignored. Qed.
+Print Assumptions C20_non_endogenous_ignored.
+Theorem C20_only_endogenous_matter : forall symbols : list symbol,
+  symbols_to_graph_M (filter endogenous_sym symbols) = symbols_to_graph_M symbols.
+Proof. exact only_endogenous_matter. Qed.
+Print Assumptions C20_only_endogenous_matter.
+(* hence: whatever else the list holds, if the equations of its endogenous symbols are well-formed normalised equations the
+   graph is built, never raises, and is the graph of exactly those equations *)
+Theorem C20_graph_total_endogenous : forall (symbols : list symbol) (qs : list neq),
+  equations_of (filter endogenous_sym symbols) = map neq_text qs -> forallb neq_wf qs = true ->
+  symbols_to_graph_M symbols = Ret (graph_of qs).
+Proof. exact graph_total_endogenous. Qed.
+Print Assumptions C20_graph_total_endogenous.
+Theorem C20_verbatim_blocks_instance :
+  symbols_to_graph_M (ex_verbatim_noeq :: ex_symbols ++ [ex_verbatim_eq])%list = symbols_to_graph_M ex_symbols /\
+  symbols_to_graph_M [ex_verbatim_noeq] = Ret empty_graph.
+Proof. exact verbatim_blocks_ignored. Qed.
+Print Assumptions C20_verbatim_blocks_instance.
 
 (* edge x -> n  iff  some equation has n among the ids of its left-hand side and x among the ids of its right-hand side *)
 Theorem C20_edges_exact : forall (qs : list neq) (x n : string),
